@@ -31,6 +31,7 @@ func biasFor(prop, tier string) gBias {
 	}
 	switch prop {
 	case "C01":
+		b.Wildcards = true
 		b.FailSibling = true
 		b.LoopKinds = true
 		b.PLoop = 20
@@ -47,6 +48,7 @@ func biasFor(prop, tier string) gBias {
 		b.PFail = 5
 		b.DeferCallTpl = true
 		b.PDefer = 12
+		b.Wildcards = true
 		b.FailSibling = true
 		b.PDedup = 40
 		b.FailMix = true // "returns only after ..." matters most when the call fails and the caller carries on
@@ -76,6 +78,7 @@ func biasFor(prop, tier string) gBias {
 		b.ForceFlags = true
 		b.DynVars = true
 	case "C14":
+		b.Wildcards = true
 		b.PDefer = 35
 		b.PFail = 25
 		b.Cancel = true
